@@ -91,6 +91,22 @@ theorem routes_agree_beyond_cb (Mbb Bbb Kbb : Matrix b b K) (Mbq Bbq Kbq : Matri
   rw [routes_difference, h]
   simp
 
+/-- ★ `drm_zero_freq`.  At `f = 0` the solver inside the recovery-matrix route (`ode.SolveUnc.fsolve`,
+property C02) answers a force `F` with the rigid-body acceleration `φ (φᵀ M φ)⁻¹ φᵀ F` and no elastic
+acceleration (`a = -0² d`).  With the rigid-body modes normalised to unit boundary motion, `T φ = 1`
+(statically determinate interface), the boundary accelerance is `(φᵀ M φ)⁻¹` and `calcAM` returns its
+inverse: the physical rigid-body mass. -/
+theorem drm_zero_freq (T : Matrix b o K) (φ : Matrix o b K) (M : Matrix o o K) (hT : T * φ = 1)
+    (hm : IsUnit (φᵀ * M * φ).det) :
+    amOfAcc (T * (φ * (φᵀ * M * φ)⁻¹ * φᵀ) * Tᵀ) = φᵀ * M * φ := by
+  have hT' : φᵀ * Tᵀ = 1 := by rw [← transpose_mul, hT, transpose_one]
+  have : T * (φ * (φᵀ * M * φ)⁻¹ * φᵀ) * Tᵀ = (φᵀ * M * φ)⁻¹ := by
+    calc T * (φ * (φᵀ * M * φ)⁻¹ * φᵀ) * Tᵀ
+        = (T * φ) * (φᵀ * M * φ)⁻¹ * (φᵀ * Tᵀ) := by simp only [Matrix.mul_assoc]
+      _ = (φᵀ * M * φ)⁻¹ := by rw [hT, hT', Matrix.one_mul, Matrix.mul_one]
+  show (T * (φ * (φᵀ * M * φ)⁻¹ * φᵀ) * Tᵀ)⁻¹ = _
+  rw [this, nonsing_inv_nonsing_inv _ hm]
+
 end routes
 
 /-- ★ counterexample: where the model is NOT in Craig-Bampton form the routes disagree.  Two unit
